@@ -107,6 +107,8 @@ def spec(T, v, preds=None):
     s = _scalar(T, v) if isinstance(T, type) else None
     if s is not None:
         return s
+    if isinstance(T, type) and issubclass(T, str) and not issubclass(T, enum.Enum):      # subclass of str: a scalar
+        return (True, T(v)) if isinstance(v, str) else (False, None)
     origin = t.get_origin(T)
     args = t.get_args(T)
     if origin is t.Annotated:
